@@ -385,3 +385,11 @@ def entropy_bytes(ctx):
             ctx.saw('%s: data = to_bytes(data) under %s' % (q, gs))
             ctx.require(ok, q, 'raw entropy bytes are passed through to_bytes(), which hex-decodes bytes that look like ASCII hex', c.ast,
                         "to_mnemonic(b'0123456789abcdef') is the 6-word sentence of the 8 bytes 01 23 45 67 89 ab cd ef")
+
+
+@PROP.obligation('C14.defaults')
+def api_defaults(ctx):
+    """Defaults of the parameters that decide this property for callers who do not pass them: checksums are added and verified by default."""
+    from .common_defaults import defaults as run
+    n = run(ctx, [('mnemonic:Mnemonic.to_mnemonic', 'add_checksum', 'True'), ('mnemonic:Mnemonic.generate', 'add_checksum', 'True'), ('mnemonic:Mnemonic.to_entropy', 'includes_checksum', 'True'), ('mnemonic:Mnemonic.to_seed', 'validate', 'True')], 'sentences are produced without / accepted without a valid checksum by default')
+    ctx.floor(n, 3, 'parameter defaults')
